@@ -152,6 +152,24 @@ let mrow_eq a b =
   a = b || (let xs = String.split_on_char '/' a and ys = String.split_on_char '/' b in
             List.length xs = List.length ys && List.for_all2 tok_eq xs ys)
 
+(* above the cap: the first row on which the implementation's output differs from the specification of all
+   histories (Spec/AnalyticEpochSpec.v: the rows that count are those of the partition's current residency epoch).
+   [evicted] marks the rows that fail WHEN while their partition is evicted: there the statement demands the
+   default (NULL / no columns), and an implementation that answers anything else replays a result computed from
+   rows that were discarded with the evicted state. *)
+let above_cap_verdict (eq : string -> string -> bool) (impl : string list) (spec : string list) (evicted : bool list)
+  : string option =
+  let rec cmp i a b ev = match a, b with
+    | [], [] -> None
+    | x :: a', y :: b' ->
+        let (e, ev') = (match ev with e :: t -> (e, t) | [] -> (false, [])) in
+        if eq x y then cmp (i + 1) a' b' ev'
+        else if e then Some (Printf.sprintf "chk evicted_partition_replays_stale_result row=%d impl=%s spec=%s" i x y)
+        else if x = "x" || y = "x" then Some (Printf.sprintf "chk where_order_above_cap row=%d impl=%s spec=%s" i x y)
+        else Some (Printf.sprintf "chk lru_epoch_value row=%d impl=%s spec=%s" i x y)
+    | _ -> Some "chk length" in
+  cmp 0 impl spec evicted
+
 let has_prefix (v : string) (p : string) : bool =
   String.length v >= String.length p && String.sub v 0 (String.length p) = p
 
@@ -195,7 +213,7 @@ let handle (toks : string list) : string =
                             else Some (Printf.sprintf "chk seq_value row=%d impl=%s spec=%s" i x y)
                         | _ -> Some "chk length" in
                       cmp 0 stoks spec')
-               else None in
+               else above_cap_verdict tok_eq stoks (List.map show_oo (an_xspec_query q rows)) (an_xevicted q rows) in
              match verdict with
              | Some v -> v
              | None ->
@@ -251,7 +269,7 @@ let handle (toks : string list) : string =
                       (match judge true with
                        | Some (i, x, y) -> Some (Printf.sprintf "chk wrapper_sum_null row=%d impl=%s spec=%s" i x y)
                        | None -> None))
-               else None in
+               else above_cap_verdict row_eq stoks (List.map show_row (an_xmspec_query false q rows)) (an_xmevicted q rows) in
              match verdict with
              | Some v when not (String.length v > 22 && String.sub v 0 22 = "chk wrapper_sum_null r") -> v
              | _ ->
@@ -299,7 +317,7 @@ let handle (toks : string list) : string =
                          | Some (i, x, y) -> Some (Printf.sprintf "chk partition_path_fallback row=%d impl=%s spec=%s" i x y)
                          | None -> None)
                       else None)
-               else None in
+               else above_cap_verdict mrow_eq stoks (List.map show_mrow (an_nxmspec true q rows)) (an_nxmevicted true q rows) in
              match verdict with
              | Some v when not (has_prefix v "chk partition_path_fallback ") -> v
              | _ ->
